@@ -243,7 +243,25 @@ int println_with(const char* fmt, var args) {
   return pos;
 }
 
+/* Number of arguments the format string consumes */
+static size_t print_arg_count(const char* fmt) {
+  size_t num = 0;
+  while (*fmt isnt '\0') {
+    if (*fmt isnt '%') { fmt++; continue; }
+    if (*(fmt+1) is '%') { fmt += 2; continue; }
+    while (not strchr("diuoxXfFeEgGaAxcsp$", *fmt)) { fmt++; }
+    if (*fmt is '\0') { break; }
+    num++; fmt++;
+  }
+  return num;
+}
+
 int print_to_with(var out, int pos, const char* fmt, var args) {
+  
+  /* Checked before anything is written: a failed print changes nothing */
+  if (print_arg_count(fmt) > len(args)) {
+    throw(FormatError, "Not enough arguments to Format String!");
+  }
   
   char* fmt_buf = malloc(strlen(fmt)+1); 
   size_t index = 0;
